@@ -56,6 +56,32 @@ trait Store {
     fn iter_ids(&self) -> Option<Vec<u32>> {
         None
     }
+    /// iter_blobs() / iter_blobs_vec(): Err = the call failed; inner Err = one item failed
+    fn iter_blobs(&self) -> Option<R<Vec<R<(u32, Vec<u8>)>>>> {
+        None
+    }
+    /// calls that must not change what the store holds; returns (name, returned Ok)
+    fn maint_count(&self) -> usize {
+        0
+    }
+    fn maintain(&mut self, _i: usize) -> Option<(&'static str, bool)> {
+        None
+    }
+    /// a second way to empty the store (DictZipBlobStore::load_dictionary documents that it clears the storage)
+    fn clear2(&mut self) -> Option<(&'static str, bool)> {
+        None
+    }
+    /// MixedLenBlobStore: fixed_len, fixed_count, variable_count, is_fixed_length(ids)
+    fn mixed_shape(&self, _ids: &[u32]) -> Option<Value> {
+        None
+    }
+    fn put_batch_keys(&mut self, _kd: Vec<(Vec<u8>, Vec<u8>)>) -> Option<R<Vec<u32>>> {
+        None
+    }
+    /// keys() (None) / keys_with_prefix(p)
+    fn keys(&self, _p: Option<&[u8]>) -> Option<R<Vec<Vec<u8>>>> {
+        None
+    }
     fn contains(&self, id: u32) -> bool;
     fn size(&self, id: u32) -> R<Option<usize>>;
     fn len(&self) -> usize;
@@ -108,6 +134,10 @@ struct W<S: BlobStore> {
     getb: Option<fn(&S, Vec<u32>) -> R<Vec<Option<Vec<u8>>>>>,
     rmb: Option<fn(&mut S, Vec<u32>) -> R<usize>>,
     iter: Option<fn(&S) -> Vec<u32>>,
+    iterb: Option<fn(&S) -> R<Vec<R<(u32, Vec<u8>)>>>>,
+    maint: Vec<(&'static str, fn(&mut S) -> bool)>,
+    clear2: Option<(&'static str, fn(&mut S) -> bool)>,
+    shape: Option<fn(&S, &[u32]) -> Value>,
     stored: Option<fn(&S, u32) -> Option<usize>>,
     clear: Option<fn(&mut S)>,
     reload: Option<fn(&S) -> R<S>>,
@@ -115,7 +145,7 @@ struct W<S: BlobStore> {
 }
 impl<S: BlobStore> W<S> {
     fn new(s: S) -> W<S> {
-        W { s, batch: None, getb: None, rmb: None, iter: None, stored: None, clear: None, reload: None, _dir: None }
+        W { s, batch: None, getb: None, rmb: None, iter: None, iterb: None, maint: vec![], clear2: None, shape: None, stored: None, clear: None, reload: None, _dir: None }
     }
     fn stored(mut self, f: fn(&S, u32) -> Option<usize>) -> Self {
         self.stored = Some(f);
@@ -145,6 +175,13 @@ impl<S: BatchBlobStore> W<S> {
 impl<S: IterableBlobStore> W<S> {
     fn iterable(mut self) -> Self {
         self.iter = Some(|s| s.iter_ids().collect());
+        self.iterb = Some(|s| Ok(s.iter_blobs().map(|x| x.map_err(|_| ())).collect()));
+        self
+    }
+}
+impl<S: BlobStore> W<S> {
+    fn maint(mut self, name: &'static str, f: fn(&mut S) -> bool) -> Self {
+        self.maint.push((name, f));
         self
     }
 }
@@ -172,6 +209,25 @@ impl<S: BlobStore> Store for W<S> {
     }
     fn iter_ids(&self) -> Option<Vec<u32>> {
         self.iter.map(|f| f(&self.s))
+    }
+    fn iter_blobs(&self) -> Option<R<Vec<R<(u32, Vec<u8>)>>>> {
+        self.iterb.map(|f| f(&self.s))
+    }
+    fn maint_count(&self) -> usize {
+        self.maint.len() + 1
+    }
+    fn maintain(&mut self, i: usize) -> Option<(&'static str, bool)> {
+        if i >= self.maint.len() {
+            return Some(("flush", self.s.flush().is_ok())); // BlobStore::flush of every store
+        }
+        let (n, f) = self.maint[i];
+        Some((n, f(&mut self.s)))
+    }
+    fn clear2(&mut self) -> Option<(&'static str, bool)> {
+        self.clear2.map(|(n, f)| (n, f(&mut self.s)))
+    }
+    fn mixed_shape(&self, ids: &[u32]) -> Option<Value> {
+        self.shape.map(|f| f(&self.s, ids))
     }
     fn contains(&self, id: u32) -> bool {
         self.s.contains(id)
@@ -209,6 +265,8 @@ impl<S: BlobStore> Store for W<S> {
 /// NestLoudsTrieBlobStore: BlobStore + the keyed extension
 struct TrieW {
     s: NestLoudsTrieBlobStore<RS>,
+    /// finalize() is offered as a maintenance call (it makes the store read-only: only where the run ends with it)
+    finalizable: bool,
 }
 impl Store for TrieW {
     fn get(&self, id: u32) -> R<Vec<u8>> {
@@ -241,6 +299,30 @@ impl Store for TrieW {
     fn iter_ids(&self) -> Option<Vec<u32>> {
         Some(self.s.iter_ids().collect())
     }
+    fn iter_blobs(&self) -> Option<R<Vec<R<(u32, Vec<u8>)>>>> {
+        Some(Ok(self.s.iter_blobs().map(|x| x.map_err(|_| ())).collect()))
+    }
+    fn maint_count(&self) -> usize {
+        if self.finalizable { 2 } else { 1 }
+    }
+    fn maintain(&mut self, i: usize) -> Option<(&'static str, bool)> {
+        Some(match i {
+            0 => ("flush", self.s.flush().is_ok()),
+            _ => {
+                let r = self.s.finalize().is_ok();
+                ("finalize", r && self.s.is_finalized())
+            }
+        })
+    }
+    fn put_batch_keys(&mut self, kd: Vec<(Vec<u8>, Vec<u8>)>) -> Option<R<Vec<u32>>> {
+        Some(self.s.put_batch_with_keys(kd).map_err(|_| ()))
+    }
+    fn keys(&self, p: Option<&[u8]>) -> Option<R<Vec<Vec<u8>>>> {
+        Some(match p {
+            None => self.s.keys().map_err(|_| ()),
+            Some(p) => self.s.keys_with_prefix(p).map_err(|_| ()),
+        })
+    }
     fn put_key(&mut self, k: &[u8], d: &[u8]) -> Option<R<u32>> {
         Some(self.s.put_with_key(k, d).map_err(|_| ()))
     }
@@ -252,6 +334,38 @@ impl Store for TrieW {
     }
     fn get_prefix(&mut self, p: &[u8]) -> Option<R<Vec<(Vec<u8>, Vec<u8>)>>> {
         Some(self.s.get_by_prefix(p).map_err(|_| ()))
+    }
+}
+
+/// two CachedBlobStores sharing one LruPageCache: `a` is the subject, `b` receives a different record
+/// before every put to `a` and is read before every get
+struct CachedPair {
+    a: CachedBlobStore<MemoryBlobStore>,
+    b: CachedBlobStore<MemoryBlobStore>,
+    n: u8,
+}
+impl Store for CachedPair {
+    fn get(&self, id: u32) -> R<Vec<u8>> {
+        let _ = self.b.get(id);
+        self.a.get(id).map_err(|_| ())
+    }
+    fn put(&mut self, d: &[u8]) -> R<u32> {
+        self.n = self.n.wrapping_add(1);
+        let noise: Vec<u8> = d.iter().map(|x| x ^ 0x5a).chain([self.n]).collect();
+        let _ = self.b.put(&noise);
+        self.a.put(d).map_err(|_| ())
+    }
+    fn remove(&mut self, id: u32) -> R<()> {
+        self.a.remove(id).map_err(|_| ())
+    }
+    fn contains(&self, id: u32) -> bool {
+        self.a.contains(id)
+    }
+    fn size(&self, id: u32) -> R<Option<usize>> {
+        self.a.size(id).map_err(|_| ())
+    }
+    fn len(&self) -> usize {
+        self.a.len()
     }
 }
 
@@ -294,7 +408,11 @@ fn compressible_64k(r: &mut Rng) -> Vec<u8> {
     v.truncate(65536);
     v
 }
-const FAMILIES: &[&str] = &["empty", "one", "eq32", "text", "rand_small", "zeros4k", "comp64k", "rand64k", "rand_mid"];
+const FAMILIES: &[&str] = &["empty", "one", "eq32", "text", "rand_small", "zeros4k", "comp64k", "rand64k", "rand_mid", "thresh", "thresh", "edge64k", "huge"];
+/// record lengths on both sides of every threshold the stores' code knows: SimpleZip fragment limits 8 / 256,
+/// DictZip min_compression_size presets 10 / 16 / 32 / 64 / 128 / 256, the FSE "too small" limit 100, SIMD
+/// chunk sizes 16 / 32 / 64, ZipOffset SIMD_THRESHOLD 64, the 4 KiB cache page, SecurePool chunk 1024
+const THRESHOLDS: &[usize] = &[8, 10, 16, 32, 64, 100, 128, 256, 1024, 4096, 8192];
 fn payload_of(fam: &str, r: &mut Rng) -> Vec<u8> {
     match fam {
         "empty" => vec![],
@@ -310,6 +428,37 @@ fn payload_of(fam: &str, r: &mut Rng) -> Vec<u8> {
             r.bytes(n)
         }
         "zeros4k" => vec![0u8; 4096],
+        "thresh" => {
+            let t = *r.pick(THRESHOLDS);
+            let n = (t as i64 + r.range(0, 2) as i64 - 1) as usize; // t-1, t, t+1
+            if r.chance(1, 2) {
+                r.bytes(n)
+            } else {
+                let mut v = corpus(r.next(), n);
+                v.truncate(n);
+                v
+            }
+        }
+        // 64 KiB - 1 / 64 KiB / 64 KiB + 1, compressible
+        "edge64k" => {
+            let n = 65535 + r.range(0, 2) as usize;
+            let mut v = compressible_64k(r);
+            v.extend_from_slice(&[b'x'; 2]);
+            v.truncate(n);
+            v
+        }
+        // beyond 64 KiB: 200 KiB of random bytes, or 1 MiB that shrinks by far more than 32x
+        "huge" => {
+            if r.chance(1, 2) {
+                let n = 200 * 1024 + r.below(7) as usize;
+                r.bytes(n)
+            } else {
+                let mut v = vec![0u8; 1 << 20];
+                let at = r.below(1 << 20) as usize;
+                v[at] = 1;
+                v
+            }
+        }
         "comp64k" => compressible_64k(r),
         "rand64k" => r.bytes(65536),
         _ => vec![],
@@ -376,6 +525,62 @@ fn dictzip(cfg: DictZipConfig, seed: u64) -> Option<DictZipBlobStore> {
     }
     b.finish().ok()
 }
+fn strings(seed: u64, n: usize) -> Vec<String> {
+    let mut r = Rng::new(seed).derive("strings");
+    (0..n).map(|i| format!("{i:05} {}", String::from_utf8_lossy(&text_line(&mut r)).trim_end())).collect()
+}
+/// every other way to obtain a trained DictZipBlobStore: dictionary files, builder setters, build_from_* twins
+fn dictzip_alt(var: &str, seed: u64, dir: &TmpDir) -> Option<DictZipBlobStore> {
+    use zipora::config::NestLoudsTrieConfig;
+    use zipora::containers::specialized::{FixedLenStrVec, SortableStrVec, ZoSortedStrVec};
+    let nl = NestLoudsTrieConfig::default();
+    let strs = strings(seed, 16);
+    Some(match var {
+        "from_file" => {
+            let src = dictzip(dz_small(10), seed)?;
+            let path = dir.0.join("dict.bin");
+            src.save_dictionary(&path).ok()?;
+            DictZipBlobStore::from_dictionary_file(&path, dz_small(10)).ok()?
+        }
+        "external_dict" => {
+            let mut b = DictZipBlobStoreBuilder::with_config(dz_small(10).with_external_dictionary(dir.0.join("ext.dict"))).ok()?;
+            b.add_training_samples(strs.iter().map(|x| x.as_bytes().to_vec())).ok()?;
+            b.finish().ok()?
+        }
+        "builder_setters" => {
+            let mut b = DictZipBlobStoreBuilder::with_config(dz_small(10)).ok()?;
+            let path = dir.0.join("train.txt");
+            std::fs::write(&path, strs[..8].join("\n")).ok()?;
+            b.add_training_file(&path).ok()?;
+            b.add_training_samples(strs[8..].iter().map(|x| x.as_bytes().to_vec())).ok()?;
+            b.set_dict_size_mb(1).ok()?;
+            b.set_min_frequency(2).ok()?;
+            b.enable_advanced_caching().ok()?;
+            b.set_progress_callback(|_| {});
+            let _ = b.training_stats();
+            b.finish().ok()?
+        }
+        "from_samples" => DictZipBlobStore::build_from_training_samples(&strs.iter().map(|x| x.as_bytes().to_vec()).collect::<Vec<_>>(), &nl).ok()?,
+        "from_vec_u8" => DictZipBlobStore::build_from_vec_u8(strs.join("\n").as_bytes(), &nl).ok()?,
+        "from_sortable" => {
+            let mut v = SortableStrVec::new();
+            for x in &strs {
+                v.push_str(x).ok()?;
+            }
+            DictZipBlobStore::build_from_sortable_str_vec(&v, &nl).ok()?
+        }
+        "from_zo" => DictZipBlobStore::build_from_zo_sorted_str_vec(&ZoSortedStrVec::from_sorted_strings(strs.clone()).ok()?, &nl).ok()?,
+        "from_fixed" => {
+            let mut v = FixedLenStrVec::<32>::new();
+            for x in &strs {
+                v.push(&x[..x.len().min(32)]).ok()?;
+            }
+            DictZipBlobStore::build_from_fixed_len_str_vec(&v, &nl).ok()?
+        }
+        _ => return None,
+    })
+}
+
 fn dictzip_cfg(var: &str) -> Option<DictZipConfig> {
     let ent = |a: DzEntropy, il: u8| {
         let mut c = dz_small(10);
@@ -397,6 +602,20 @@ fn dictzip_cfg(var: &str) -> Option<DictZipConfig> {
         "huffman_x8" => ent(DzEntropy::HuffmanO1, 8),
         "fse" => ent(DzEntropy::Fse, 0),
         "fse_x4" => ent(DzEntropy::Fse, 4),
+        // thresholds and cache sizes at their extremes
+        "min0" => dz_small(10).with_min_compression_size(0),
+        "min1" => dz_small(10).with_min_compression_size(1),
+        "cache0" => {
+            let mut c = dz_small(10);
+            c.cache_size_bytes = 1; // capacity 1 / 1024 = 0 entries
+            c
+        }
+        "cache1entry" => {
+            let mut c = dz_small(10);
+            c.cache_size_bytes = 1024; // exactly one cached record
+            c
+        }
+        "cache_1mb" => dz_small(10).with_cache_size_mb(1),
         _ => return None,
     })
 }
@@ -436,6 +655,12 @@ fn zipoffset_reload(s: &ZipOffsetBlobStore) -> R<ZipOffsetBlobStore> {
     s.save_to_writer(&mut bytes).map_err(|_| ())?;
     ZipOffsetBlobStore::load_from_reader(&mut &bytes[..]).map_err(|_| ())
 }
+fn zipoffset_reload_file(s: &ZipOffsetBlobStore) -> R<ZipOffsetBlobStore> {
+    let p = PathBuf::from(TMP_ROOT).join(format!("zo-{}-{:?}.bin", std::process::id(), std::thread::current().id()));
+    let r = s.save_to_file(&p).map_err(|_| ()).and_then(|_| ZipOffsetBlobStore::load_from_file(&p).map_err(|_| ()));
+    let _ = std::fs::remove_file(&p);
+    r
+}
 fn zstd_inner_size<S: BlobStore>(s: &ZstdBlobStore<S>, id: u32) -> Option<usize> {
     s.inner().size(id).ok().flatten()
 }
@@ -455,6 +680,15 @@ fn mutable_subjects() -> Vec<String> {
     for d in ["small", "default", "text", "binary", "log", "realtime", "huffman_x1", "huffman_x2", "huffman_x4", "huffman_x8", "fse", "fse_x4"] {
         v.push(format!("dictzip:{d}"));
     }
+    // configuration extremes, twin constructors, builder setters (coverage round)
+    for s in [
+        "zstd:mem_l22", "zstd:mem_l0", "zstd:mem_lneg", "cached:tiny_cache", "cached:security", "cached:toggle", "cached:shared_cache", "cached:shared_cache_back",
+        "trie:cache0", "trie:custom", "triekey:cache0", "triekey:cache1", "triekey:custom",
+        "dictzip:min0", "dictzip:min1", "dictzip:cache1entry", "dictzip:cache_1mb", "dictzip:from_file", "dictzip:external_dict",
+        "dictzip:builder_setters", "dictzip:from_samples", "dictzip:from_vec_u8", "dictzip:from_sortable", "dictzip:from_zo", "dictzip:from_fixed",
+    ] {
+        v.push(s.into());
+    }
     for s in [
         "stack:zstd_zstd_mem", "stack:zstd_cached_mem", "stack:cached_zstd_mem", "stack:huff_zstd_mem", "stack:zstd_huff_mem", "stack:rans_cached_mem",
         "stack:cached_dictzip", "stack:zstd_dictzip", "stack:dict_zstd_plain", "stack:cached_trie",
@@ -470,6 +704,19 @@ fn trie_cfg(var: &str) -> Option<TrieBlobStoreConfig> {
         "performance" => TrieBlobStoreConfig::performance_optimized(),
         "memory" => TrieBlobStoreConfig::memory_optimized(),
         "security" => TrieBlobStoreConfig::security_optimized(),
+        // the config builder with every setter, caches at their smallest
+        "cache0" => TrieBlobStoreConfig::builder().key_cache_size(0).build().ok()?,
+        "cache1" => TrieBlobStoreConfig::builder().key_cache_size(1).build().ok()?,
+        "custom" => TrieBlobStoreConfig::builder()
+            .trie_config(zipora::fsa::ZiporaTrieConfig::default())
+            .blob_config(ZipOffsetBlobStoreConfig::performance_optimized())
+            .memory_config(zipora::memory::SecurePoolConfig::small_secure())
+            .key_compression(false)
+            .batch_optimization(false)
+            .key_cache_size(2)
+            .statistics(false)
+            .build()
+            .ok()?,
         _ => return None,
     })
 }
@@ -487,7 +734,18 @@ fn make(name: &str, seed: u64) -> Option<Box<dyn Store>> {
     Some(match fam {
         "mem" => {
             let s = if var == "new" { MemoryBlobStore::new() } else { MemoryBlobStore::with_capacity(1) };
-            let mut w = W::new(s).batching().iterable().reload(mem_reload);
+            let mut w = W::new(s)
+                .batching()
+                .iterable()
+                .reload(mem_reload)
+                .maint("reserve", |s| {
+                    s.reserve(64);
+                    s.capacity() >= 64
+                })
+                .maint("shrink_to_fit", |s| {
+                    s.shrink_to_fit();
+                    true
+                });
             w.clear = Some(|s| s.clear());
             w.boxed()
         }
@@ -498,8 +756,9 @@ fn make(name: &str, seed: u64) -> Option<Box<dyn Store>> {
             w.boxed()
         }
         "zstd" => match var {
-            "mem_l1" | "mem_l3" | "mem_l19" => {
-                let lvl = var[5..].parse::<i32>().ok()?;
+            "mem_l1" | "mem_l3" | "mem_l19" | "mem_l22" | "mem_l0" | "mem_lneg" => {
+                // new() clamps the level to 1..=22: both ends and beyond
+                let lvl = if var == "mem_lneg" { -7 } else { var[5..].parse::<i32>().ok()? };
                 W::new(ZstdBlobStore::new(MemoryBlobStore::new(), lvl)).batching().iterable().stored(zstd_inner_size).reload(zstd_mem_reload).boxed()
             }
             "plain_l3" => {
@@ -535,19 +794,86 @@ fn make(name: &str, seed: u64) -> Option<Box<dyn Store>> {
                 "write_around" => (PageCacheConfig::balanced(), CacheWriteStrategy::WriteAround, false),
                 "disabled" => (PageCacheConfig::balanced(), CacheWriteStrategy::WriteThrough, true),
                 "memory_optimized" => (PageCacheConfig::memory_optimized(), CacheWriteStrategy::WriteThrough, false),
+                "security" => (PageCacheConfig::security_optimized(), CacheWriteStrategy::WriteBack, false),
+                "toggle" => (PageCacheConfig::memory_optimized(), CacheWriteStrategy::WriteThrough, false),
+                "tiny_cache" => {
+                    // room for a single 4 KiB page: every second record evicts
+                    let mut c = PageCacheConfig::memory_optimized();
+                    c.capacity = 4096;
+                    c.num_shards = 1;
+                    (c, CacheWriteStrategy::WriteBack, false)
+                }
+                "shared_cache" | "shared_cache_back" => {
+                    // two stores on ONE LruPageCache (with_cache / with_cache_and_strategy): writes to the
+                    // neighbour must never show up in this store
+                    let cache = std::sync::Arc::new(zipora::cache::LruPageCache::new(PageCacheConfig::memory_optimized()).ok()?);
+                    let (a, b) = if var == "shared_cache" {
+                        (CachedBlobStore::with_cache(MemoryBlobStore::new(), cache.clone()).ok()?, CachedBlobStore::with_cache(MemoryBlobStore::new(), cache).ok()?)
+                    } else {
+                        (
+                            CachedBlobStore::with_cache_and_strategy(MemoryBlobStore::new(), cache.clone(), CacheWriteStrategy::WriteBack).ok()?,
+                            CachedBlobStore::with_cache_and_strategy(MemoryBlobStore::new(), cache, CacheWriteStrategy::WriteAround).ok()?,
+                        )
+                    };
+                    return Some(Box::new(CachedPair { a, b, n: 0 }));
+                }
                 _ => return None,
             };
             let mut s = CachedBlobStore::with_write_strategy(MemoryBlobStore::new(), cfg, strat).ok()?;
             if disable {
                 s.disable_cache();
             }
-            W::new(s).boxed()
+            let mut w = W::new(s)
+                .maint("prefetch_range", |s| s.prefetch_range(0, 3 * 4096).is_ok())
+                .maint("cache_flush", |s| CachedBlobStore::flush(s).is_ok());
+            if var == "toggle" {
+                w = w
+                    .maint("disable_cache", |s| {
+                        s.disable_cache();
+                        true
+                    })
+                    .maint("enable_cache", |s| {
+                        s.enable_cache();
+                        true
+                    })
+                    .maint("set_write_strategy", |s| {
+                        let n = match s.write_strategy() {
+                            CacheWriteStrategy::WriteThrough => CacheWriteStrategy::WriteBack,
+                            CacheWriteStrategy::WriteBack => CacheWriteStrategy::WriteAround,
+                            CacheWriteStrategy::WriteAround => CacheWriteStrategy::WriteThrough,
+                        };
+                        s.set_write_strategy(n);
+                        s.write_strategy() == n
+                    });
+            }
+            w.boxed()
         }
         "zerolen" => W::new(ZeroLengthBlobStore::new()).batching().iterable().reload(zerolen_reload).boxed(),
-        "trie" | "triekey" => Box::new(TrieW { s: NestLoudsTrieBlobStore::<RS>::new(trie_cfg(var)?).ok()? }),
+        "trie" | "triekey" => Box::new(TrieW { s: NestLoudsTrieBlobStore::<RS>::new(trie_cfg(var)?).ok()?, finalizable: false }),
         "dictzip" => {
-            let mut w = W::new(dictzip(dictzip_cfg(var)?, seed)?).batching().stored(csize_of);
-            w.iter = Some(|s| s.iter_ids_vec()); // inherent method (the type does not implement IterableBlobStore)
+            let (store, dir) = match dictzip_cfg(var) {
+                Some(cfg) => (dictzip(cfg, seed)?, None),
+                None => {
+                    let d = TmpDir::new("dz");
+                    (dictzip_alt(var, seed, &d)?, Some(d))
+                }
+            };
+            let mut w = W::new(store)
+                .batching()
+                .stored(csize_of)
+                .maint("optimize", |s| s.optimize().is_ok())
+                .maint("validate", |s| s.validate().is_ok());
+            // inherent methods (the type does not implement IterableBlobStore)
+            w.iter = Some(|s| s.iter_ids_vec());
+            w.iterb = Some(|s| s.iter_blobs_vec().map(|v| v.into_iter().map(Ok).collect()).map_err(|_| ()));
+            // save_dictionary -> load_dictionary: documented to clear the storage ("tied to the old dictionary")
+            w.clear2 = Some(("load_dictionary", |s| {
+                let p = PathBuf::from(TMP_ROOT).join(format!("dz-{}-{:?}.dict", std::process::id(), std::thread::current().id()));
+                let ok = s.save_dictionary(&p).is_ok() && s.load_dictionary(&p).is_ok();
+                let _ = std::fs::remove_file(&p);
+                ok
+            }));
+            w._dir = dir;
             w.boxed()
         }
         "stack" => match var {
@@ -609,7 +935,42 @@ fn bulk_subjects() -> Vec<String> {
     for c in ["default", "performance", "memory", "security"] {
         v.push(format!("triebuild:{c}"));
     }
+    // coverage round: twins of the builders, build_from_* constructors, ids at the end of the id space, config extremes
+    for x in [
+        "zipoffset:add_records", "zipoffset:with_pool", "zipoffset:default+savefile", "zipoffset:batch4_flush",
+        "simplezip:frag1_1", "simplezip:frag_1mb", "simplezip:frag1k_1k", "mixedlen:fixed1000000", "mem:from_data_top",
+        "triebuild:add_batch", "triebuild:progress", "triebuild:builder_default", "triebuild:custom_dups",
+        "triefrom:kv", "triefrom:sortable", "triefrom:zo", "triefrom:fixed", "triefrom:vec_u8", "triefrom:slice_u8",
+    ] {
+        v.push(x.into());
+    }
     v
+}
+
+/// how the records of a bulk build are addressed afterwards
+#[derive(Default)]
+struct Built {
+    /// explicit ids (MemoryBlobStore::from_data); None = 0..n
+    ids: Option<Vec<u32>>,
+    /// keys of a keyed build (builder add(key, data), build_from_key_value_pairs, build_from_<strings>)
+    keys: Option<Vec<Vec<u8>>>,
+}
+
+/// key of entry i of a keyed build: ascending (so that a sorting builder keeps the input order) ...
+fn build_key(i: usize) -> Vec<u8> {
+    format!("key/{i:06}").into_bytes()
+}
+/// ... or unsorted with repetitions (builders that keep the order they are given)
+fn build_key_dups(i: usize, n: usize) -> Vec<u8> {
+    format!("k{:04}", (i * 7919) % (n / 2 + 1)).into_bytes()
+}
+/// ids at both ends of the id space for MemoryBlobStore::from_data
+fn top_id(i: usize, n: usize) -> u32 {
+    if i < n / 2 {
+        i as u32
+    } else {
+        u32::MAX - (n - 1 - i) as u32
+    }
 }
 
 fn zipoffset_cfg(var: &str) -> Option<ZipOffsetBlobStoreConfig> {
@@ -636,18 +997,41 @@ fn zipoffset_cfg(var: &str) -> Option<ZipOffsetBlobStoreConfig> {
 }
 
 /// Err(msg) = the builder refused (an add/finish/build_from call returned Err)
-fn build(name: &str, recs: &[Vec<u8>]) -> Result<Box<dyn Store>, String> {
+fn build(name: &str, recs: &[Vec<u8>]) -> Result<(Box<dyn Store>, Built), String> {
     let (base, saveload) = match name.strip_suffix("+saveload") {
         Some(b) => (b, true),
         None => (name, false),
     };
+    let (base, savefile) = match base.strip_suffix("+savefile") {
+        Some(b) => (b, true),
+        None => (base, false),
+    };
+    let mut built = Built::default();
+    let n = recs.len();
     let (fam, var) = base.split_once(':').ok_or("bad name")?;
     let e = |x: zipora::ZiporaError| x.to_string();
-    Ok(match fam {
+    let store: Box<dyn Store> = match fam {
         "zipoffset" => {
             let store = if let Some(rest) = var.strip_prefix("batch") {
-                let (n, c) = rest.split_once('_').ok_or("bad batch variant")?;
-                let mut b = BatchZipOffsetBlobStoreBuilder::with_config(zipoffset_cfg(c).ok_or("cfg")?, n.parse().map_err(|_| "n")?).map_err(e)?;
+                let (bn, c) = rest.split_once('_').ok_or("bad batch variant")?;
+                let flush = c == "flush";
+                let mut b = BatchZipOffsetBlobStoreBuilder::with_config(zipoffset_cfg(if flush { "default" } else { c }).ok_or("cfg")?, bn.parse().map_err(|_| "n")?).map_err(e)?;
+                for (i, r) in recs.iter().enumerate() {
+                    b.add_record(r).map_err(e)?;
+                    if flush && i % 3 == 2 {
+                        b.flush_batch().map_err(e)?;
+                    }
+                }
+                b.finish().map_err(e)?
+            } else if var == "add_records" {
+                let mut b = ZipOffsetBlobStoreBuilder::new().map_err(e)?;
+                b.reserve(recs.len()).map_err(e)?;
+                b.add_records(recs.iter()).map_err(e)?;
+                b.finish().map_err(e)?
+            } else if var == "with_pool" {
+                let pool = zipora::memory::SecureMemoryPool::new(zipora::memory::SecurePoolConfig::small_secure()).map_err(e)?;
+                let pool = std::sync::Arc::try_unwrap(pool).map_err(|_| "pool is shared")?;
+                let mut b = ZipOffsetBlobStoreBuilder::with_pool(ZipOffsetBlobStoreConfig::default(), pool).map_err(e)?;
                 for r in recs {
                     b.add_record(r).map_err(e)?;
                 }
@@ -659,9 +1043,15 @@ fn build(name: &str, recs: &[Vec<u8>]) -> Result<Box<dyn Store>, String> {
                 }
                 b.finish().map_err(e)?
             };
-            let mut w = W::new(store).stored(csize_of);
+            let mut w = W::new(store).stored(csize_of).maint("enable_offset_cache", |s| {
+                s.enable_offset_cache();
+                s.memory_usage() > 0
+            });
             if saveload {
                 w = w.reload(zipoffset_reload);
+            }
+            if savefile {
+                w = w.reload(zipoffset_reload_file);
             }
             w.boxed()
         }
@@ -672,6 +1062,10 @@ fn build(name: &str, recs: &[Vec<u8>]) -> Result<Box<dyn Store>, String> {
                 "frag8_8" => SimpleZipConfig::builder().min_frag_len(8).max_frag_len(8).build().map_err(e)?,
                 "nodelim" => SimpleZipConfig::builder().delimiters(vec![]).build().map_err(e)?,
                 "delim_all" => SimpleZipConfig::builder().min_frag_len(2).max_frag_len(64).delimiters((0..=255u8).collect()).build().map_err(e)?,
+                // fragment limits at both ends of what validate() admits
+                "frag1_1" => SimpleZipConfig::builder().min_frag_len(1).max_frag_len(1).build().map_err(e)?,
+                "frag_1mb" => SimpleZipConfig::builder().min_frag_len(1).max_frag_len(1024 * 1024).build().map_err(e)?,
+                "frag1k_1k" => SimpleZipConfig::builder().min_frag_len(1024).max_frag_len(1024).build().map_err(e)?,
                 _ => return Err("variant".into()),
             };
             W::new(SimpleZipBlobStore::build_from(recs, &cfg).map_err(e)?).batching().iterable().boxed()
@@ -681,7 +1075,12 @@ fn build(name: &str, recs: &[Vec<u8>]) -> Result<Box<dyn Store>, String> {
                 "auto" => MixedLenBlobStore::build_from(recs).map_err(e)?,
                 _ => MixedLenBlobStore::build_from_with_fixed_len(recs, var[5..].parse().map_err(|_| "fixed")?).map_err(e)?,
             };
-            W::new(s).batching().iterable().boxed()
+            let mut w = W::new(s).batching().iterable();
+            w.shape = Some(|s, ids| {
+                let isf: Vec<bool> = ids.iter().map(|&i| s.is_fixed_length(i)).collect();
+                json!({"op":"mixed_shape","f":s.fixed_len(),"nf":s.fixed_count(),"nv":s.variable_count(),"ids":ids,"isf":isf})
+            });
+            w.boxed()
         }
         "zerolen" => {
             if recs.iter().any(|r| !r.is_empty()) {
@@ -694,7 +1093,11 @@ fn build(name: &str, recs: &[Vec<u8>]) -> Result<Box<dyn Store>, String> {
             w.boxed()
         }
         "mem" => {
-            let m: HashMap<u32, Vec<u8>> = recs.iter().enumerate().map(|(i, r)| (i as u32, r.clone())).collect();
+            let top = var == "from_data_top";
+            if top {
+                built.ids = Some((0..n).map(|i| top_id(i, n)).collect());
+            }
+            let m: HashMap<u32, Vec<u8>> = recs.iter().enumerate().map(|(i, r)| (if top { top_id(i, n) } else { i as u32 }, r.clone())).collect();
             let mut w = W::new(MemoryBlobStore::from_data(m)).batching().iterable();
             if saveload {
                 w = w.reload(mem_reload);
@@ -702,14 +1105,83 @@ fn build(name: &str, recs: &[Vec<u8>]) -> Result<Box<dyn Store>, String> {
             w.boxed()
         }
         "triebuild" => {
-            let mut b = NestLoudsTrieBlobStoreBuilder::<RS>::new(trie_cfg(var).ok_or("cfg")?).map_err(e)?;
-            for (i, r) in recs.iter().enumerate() {
-                b.add(format!("key/{i:06}").as_bytes(), r).map_err(e)?;
+            let dups = var == "custom_dups";
+            let keys: Vec<Vec<u8>> = (0..n).map(|i| if dups { build_key_dups(i, n) } else { build_key(i) }).collect();
+            let mut b = match var {
+                "builder_default" => NestLoudsTrieBlobStore::<RS>::builder_default().map_err(e)?,
+                "add_batch" | "progress" => NestLoudsTrieBlobStore::<RS>::builder(TrieBlobStoreConfig::default()).map_err(e)?,
+                "custom_dups" => NestLoudsTrieBlobStoreBuilder::<RS>::new(trie_cfg("custom").ok_or("cfg")?).map_err(e)?,
+                _ => NestLoudsTrieBlobStoreBuilder::<RS>::new(trie_cfg(var).ok_or("cfg")?).map_err(e)?,
+            };
+            b.reserve(n);
+            if var == "add_batch" {
+                b.add_batch(keys.iter().cloned().zip(recs.iter().cloned())).map_err(e)?;
+            } else {
+                for (k, r) in keys.iter().zip(recs) {
+                    b.add(k, r).map_err(e)?;
+                }
             }
-            Box::new(TrieW { s: b.finish().map_err(e)? })
+            if b.len() != n || b.is_empty() != (n == 0) {
+                return Err("builder len() disagrees with the entries added".into());
+            }
+            if !dups {
+                b.sort_entries(); // already ascending: must keep the order
+            }
+            let s = if var == "progress" { b.finish_with_progress(|_, _| {}).map_err(e)? } else { b.finish().map_err(e)? };
+            built.keys = Some(keys);
+            Box::new(TrieW { s, finalizable: false })
+        }
+        "triefrom" => {
+            use zipora::config::NestLoudsTrieConfig;
+            use zipora::containers::specialized::{FixedLenStrVec, SortableStrVec, ZoSortedStrVec};
+            let nl = NestLoudsTrieConfig::default();
+            let strs: Vec<String> = recs.iter().map(|r| String::from_utf8_lossy(r).into_owned()).collect();
+            let s = match var {
+                "kv" => {
+                    let keys: Vec<Vec<u8>> = (0..n).map(|i| build_key_dups(i, n)).collect();
+                    let pairs: Vec<(Vec<u8>, Vec<u8>)> = keys.iter().cloned().zip(recs.iter().cloned()).collect();
+                    built.keys = Some(keys);
+                    NestLoudsTrieBlobStore::<RS>::build_from_key_value_pairs(&pairs, &nl).map_err(e)?
+                }
+                // the string-vector constructors store every string as key AND record
+                "sortable" => {
+                    let mut v = SortableStrVec::new();
+                    for x in &strs {
+                        v.push_str(x).map_err(e)?;
+                    }
+                    built.keys = Some(recs.to_vec());
+                    NestLoudsTrieBlobStore::<RS>::build_from_sortable_str_vec(&v, &nl).map_err(e)?
+                }
+                "zo" => {
+                    built.keys = Some(recs.to_vec());
+                    NestLoudsTrieBlobStore::<RS>::build_from_zo_sorted_str_vec(&ZoSortedStrVec::from_sorted_strings(strs.clone()).map_err(e)?, &nl).map_err(e)?
+                }
+                "fixed" => {
+                    let mut v = FixedLenStrVec::<32>::new();
+                    for x in &strs {
+                        v.push(x).map_err(e)?;
+                    }
+                    built.keys = Some(recs.to_vec());
+                    NestLoudsTrieBlobStore::<RS>::build_from_fixed_len_str_vec(&v, &nl).map_err(e)?
+                }
+                "vec_u8" | "slice_u8" => {
+                    if n != 1 {
+                        return Err("one record".into());
+                    }
+                    built.keys = Some(recs.to_vec());
+                    if var == "vec_u8" {
+                        NestLoudsTrieBlobStore::<RS>::build_from_vec_u8(&recs[0], &nl).map_err(e)?
+                    } else {
+                        NestLoudsTrieBlobStore::<RS>::build_from_slice_u8(&recs[0], &nl).map_err(e)?
+                    }
+                }
+                _ => return Err("variant".into()),
+            };
+            Box::new(TrieW { s, finalizable: false })
         }
         _ => return Err("family".into()),
-    })
+    };
+    Ok((store, built))
 }
 
 fn fam_of(name: &str) -> String {
@@ -729,6 +1201,12 @@ enum Op<'a> {
     Remove(u32),
     RemoveBatch(&'a [u32]),
     IterIds,
+    IterBlobs,
+    Maintain(usize),
+    Clear2,
+    MixedShape(&'a [u32]),
+    PutBatchKeys(&'a [(Vec<u8>, Vec<u8>)]),
+    Keys(Option<&'a [u8]>),
     Contains(u32),
     Size(u32),
     Len,
@@ -750,6 +1228,12 @@ impl Op<'_> {
             Op::Remove(_) => "remove",
             Op::RemoveBatch(_) => "remove_batch",
             Op::IterIds => "iter_ids",
+            Op::IterBlobs => "iter_blobs",
+            Op::Maintain(_) => "maintenance",
+            Op::Clear2 => "clear",
+            Op::MixedShape(_) => "mixed_shape",
+            Op::PutBatchKeys(_) => "put_batch_keys",
+            Op::Keys(_) => "keys",
             Op::Contains(_) => "contains",
             Op::Size(_) => "size",
             Op::Len => "len",
@@ -816,6 +1300,40 @@ fn exec(s: &mut Box<dyn Store>, op: &Op) -> Option<Value> {
                 Err(()) => json!({"op":"remove_batch","ids":ids,"ok":false,"n":0}),
             },
             Op::IterIds => json!({"op":"iter_ids","r":s.iter_ids()?}),
+            Op::IterBlobs => match s.iter_blobs()? {
+                Ok(v) => {
+                    let r: Vec<Value> = v.iter().map(|x| match x {
+                        Ok((id, b)) => json!({"ok": true, "id": id, "d": digest(b)}),
+                        Err(()) => json!({"ok": false, "id": 0, "d": digest(&[])}),
+                    }).collect();
+                    json!({"op":"iter_blobs","ok":true,"r":r})
+                }
+                Err(()) => json!({"op":"iter_blobs","ok":false,"r":[]}),
+            },
+            Op::Maintain(i) => {
+                let (what, ok) = s.maintain(*i)?;
+                json!({"op":"maintenance","what":what,"ok":ok})
+            }
+            Op::Clear2 => {
+                let (what, ok) = s.clear2()?;
+                json!({"op":"clear","what":what,"ok":ok})
+            }
+            Op::MixedShape(ids) => s.mixed_shape(ids)?,
+            Op::PutBatchKeys(kd) => {
+                let ks: Vec<Value> = kd.iter().map(|(k, _)| bytes_json(k)).collect();
+                let ds: Vec<Value> = kd.iter().map(|(_, d)| digest(d)).collect();
+                match s.put_batch_keys(kd.to_vec())? {
+                    Ok(ids) => json!({"op":"put_batch_keys","ks":ks,"ds":ds,"ok":true,"ids":ids,"len_after":s.len()}),
+                    Err(()) => json!({"op":"put_batch_keys","ks":ks,"ds":ds,"ok":false,"ids":[],"len_after":s.len()}),
+                }
+            }
+            Op::Keys(p) => {
+                let pj = bytes_json(p.unwrap_or(&[]));
+                match s.keys(*p)? {
+                    Ok(v) => json!({"op":"keys","p":pj,"all":p.is_none(),"ok":true,"r":v.iter().map(|k| bytes_json(k)).collect::<Vec<_>>()}),
+                    Err(()) => json!({"op":"keys","p":pj,"all":p.is_none(),"ok":false,"r":[]}),
+                }
+            }
             Op::Contains(id) => json!({"op":"contains","id":id,"r":s.contains(*id)}),
             Op::Size(id) => {
                 let mut e = size_json(&s.size(*id));
@@ -828,7 +1346,7 @@ fn exec(s: &mut Box<dyn Store>, op: &Op) -> Option<Value> {
                 if !s.clear() {
                     return None;
                 }
-                json!({"op":"clear"})
+                json!({"op":"clear","what":"clear","ok":true})
             }
             Op::SaveLoad => json!({"op":"saveload","ok":s.saveload()?.is_ok()}),
             Op::Probe(ids) => {
@@ -863,11 +1381,32 @@ fn exec(s: &mut Box<dyn Store>, op: &Op) -> Option<Value> {
     }
 }
 
-/// ids every TLC integer can hold; an id beyond that cannot be judged and is reported as an event
-/// the contract has no action for
-fn ids_fit(e: &Value) -> bool {
-    let ok = |v: &Value| v.as_u64().map_or(true, |x| x <= i32::MAX as u64);
-    ok(&e["id"]) && e["ids"].as_array().map_or(true, |a| a.iter().all(ok)) && (e["op"] != "iter_ids" || e["r"].as_array().map_or(true, |a| a.iter().all(ok)))
+/// Record ids are u32; TLC integers are 32-bit signed.  Ids only need equality, so every id is logged
+/// reinterpreted as i32 (injective): u32::MAX appears as -1.  Applied when an event is written.
+fn project_ids(mut e: Value) -> Value {
+    fn p(v: &mut Value) {
+        if let Some(x) = v.as_u64() {
+            *v = json!(x as u32 as i32);
+        }
+    }
+    let op = e["op"].as_str().unwrap_or("").to_string();
+    if e.get("id").is_some() {
+        p(&mut e["id"]);
+    }
+    if let Some(a) = e.get_mut("ids").and_then(|x| x.as_array_mut()) {
+        a.iter_mut().for_each(p);
+    }
+    if op == "iter_ids" {
+        if let Some(a) = e.get_mut("r").and_then(|x| x.as_array_mut()) {
+            a.iter_mut().for_each(p);
+        }
+    }
+    if op == "iter_blobs" {
+        if let Some(a) = e.get_mut("r").and_then(|x| x.as_array_mut()) {
+            a.iter_mut().for_each(|x| p(&mut x["id"]));
+        }
+    }
+    e
 }
 
 /// per-subject counters for the evidence
@@ -954,22 +1493,23 @@ impl Counters {
 
 /// log one event; returns false when the run must stop (panic: the object may be inconsistent)
 fn emit(tr: &mut Tracer, c: &mut Counters, e: Value) -> bool {
-    let e = if ids_fit(&e) { e } else { json!({"op":"panic","in":e["op"],"msg":"record id beyond i32::MAX cannot be represented for TLC"}) };
     c.note(&e);
     let alive = e["op"] != "panic";
-    tr.ev(e);
+    tr.ev(project_ids(e));
     alive
 }
 
 // ---------------------------------------------------------------- B1: random histories
 
 const NEVER: &[u32] = &[0, 1_000_000, 2_147_483_647];
+/// more ids no store hands out in these runs, at the end of the id space
+const NEVER_TOP: &[u32] = &[2_147_483_648, u32::MAX - 1, u32::MAX];
 
 fn probe_ids(issued: &[u32]) -> Vec<u32> {
     let mut v: Vec<u32> = issued.to_vec();
     let mx = issued.iter().copied().max().unwrap_or(0);
-    for x in NEVER.iter().copied().chain([mx.saturating_add(1)]) {
-        if !v.contains(&x) && x <= i32::MAX as u32 {
+    for x in NEVER.iter().chain(NEVER_TOP).copied().chain([mx.wrapping_add(1)]) {
+        if !v.contains(&x) {
             v.push(x);
         }
     }
@@ -981,8 +1521,8 @@ fn allowed_families(name: &str) -> Vec<&'static str> {
         return vec!["empty", "empty", "empty", "one"];
     }
     let mut v = FAMILIES.to_vec();
-    if name.contains("plain") {
-        v.retain(|f| !f.ends_with("64k")); // file per record with fsync: keep it light
+    if name.contains("plain") || name.contains("l19") || name.contains("l22") {
+        v.retain(|f| !f.ends_with("64k") && *f != "huge"); // fsync per record / 50-500 ms per put: keep it light
     }
     v
 }
@@ -1054,6 +1594,12 @@ fn random_run(tr: &mut Tracer, c: &mut Counters, a: &Args, name: &str, regime: &
             83..=85 => vec![exec(&mut s, &Op::Len)],
             86 => vec![exec(&mut s, &Op::SaveLoad)],
             87 => vec![exec(&mut s, &Op::Clear)],
+            88..=90 => {
+                let i = rng.below(s.maint_count().max(1) as u64) as usize;
+                vec![exec(&mut s, &Op::Maintain(i))]
+            }
+            91 => vec![exec(&mut s, &Op::IterBlobs)],
+            92 if rng.chance(1, 3) => vec![exec(&mut s, &Op::Clear2)],
             _ => vec![exec(&mut s, &Op::Probe(&probe_ids(&issued)))],
         };
         for e in evs.into_iter().flatten() {
@@ -1083,6 +1629,9 @@ fn random_run(tr: &mut Tracer, c: &mut Counters, a: &Args, name: &str, regime: &
         alive = exec(&mut s, &Op::IterIds).map_or(true, |e| emit(tr, c, e));
     }
     if alive {
+        alive = exec(&mut s, &Op::IterBlobs).map_or(true, |e| emit(tr, c, e));
+    }
+    if alive {
         if let Some(e) = exec(&mut s, &Op::Probe(&probe_ids(&issued))) {
             alive = emit(tr, c, e);
         }
@@ -1101,7 +1650,7 @@ fn fill_run(tr: &mut Tracer, c: &mut Counters, a: &Args, name: &str, n: usize, f
     };
     tr.reset("blobstore", name, json!({"fam":fam_of(name),"variant":variant_of(name),"regime":"fill","n":n,"seed":a.seed,"keyed":false}));
     c.runs += 1;
-    let small: Vec<&'static str> = fams.iter().copied().filter(|f| !f.ends_with("64k") && *f != "zeros4k" && *f != "rand_mid").collect();
+    let small: Vec<&'static str> = fams.iter().copied().filter(|f| !f.ends_with("64k") && *f != "zeros4k" && *f != "rand_mid" && *f != "huge").collect();
     let mut issued: Vec<u32> = vec![];
     let mut alive = true;
     let mut i = 0;
@@ -1194,30 +1743,68 @@ fn keyed_run(tr: &mut Tracer, c: &mut Counters, a: &Args, name: &str, run: usize
     c.runs += 1;
     let keys = key_universe();
     let prefixes: Vec<Vec<u8>> = vec![b"a".to_vec(), b"ab".to_vec(), b"user/".to_vec(), b"user/1".to_vec(), b"zz".to_vec(), vec![], vec![0xff]];
-    let fams = ["empty", "one", "eq32", "text", "rand_small"];
+    let fams = ["empty", "one", "eq32", "text", "rand_small", "thresh"];
     let mut issued: Vec<u32> = vec![];
+    // the key this harness supplied with each id it was handed (argument bookkeeping, logged with remove events)
+    let mut key_given: HashMap<u32, Vec<u8>> = HashMap::new();
     let mut alive = true;
     for _ in 0..steps {
         let k = rng.below(100);
         let ev = match k {
-            0..=34 => {
+            0..=27 => {
                 let d = payload(&fams, &mut rng);
                 let key = rng.pick(&keys).clone();
-                exec(&mut s, &Op::PutKey(&key, &d))
+                let e = exec(&mut s, &Op::PutKey(&key, &d));
+                if let Some(id) = e.as_ref().and_then(|e| e["id"].as_u64().filter(|_| e["ok"] == json!(true))) {
+                    key_given.insert(id as u32, key);
+                }
+                e
             }
-            35..=54 => {
+            28..=34 => {
+                // the batch twin, deliberately with a key repeated inside the batch now and then
+                let n = rng.range(0, 3) as usize;
+                let mut kd: Vec<(Vec<u8>, Vec<u8>)> = (0..n).map(|_| (rng.pick(&keys).clone(), payload(&fams, &mut rng))).collect();
+                if n >= 2 && rng.chance(1, 3) {
+                    kd[n - 1].0 = kd[0].0.clone();
+                }
+                let e = exec(&mut s, &Op::PutBatchKeys(&kd));
+                if let Some(ids) = e.as_ref().and_then(|e| e["ids"].as_array().filter(|_| e["ok"] == json!(true))) {
+                    for (i, id) in ids.iter().filter_map(|x| x.as_u64()).enumerate() {
+                        if let Some((key, _)) = kd.get(i) {
+                            key_given.insert(id as u32, key.clone());
+                            issued.push(id as u32);
+                        }
+                    }
+                }
+                e
+            }
+            35..=52 => {
                 let key: Vec<u8> = rng.pick(&keys).clone();
                 exec(&mut s, &Op::GetKey(&key))
             }
-            55..=62 => {
+            53..=58 => {
                 let key: Vec<u8> = rng.pick(&keys).clone();
                 exec(&mut s, &Op::ContainsKey(&key))
             }
-            63..=74 => {
+            59..=68 => {
                 let p: Vec<u8> = rng.pick(&prefixes).clone();
                 exec(&mut s, &Op::GetPrefix(&p))
             }
-            75..=84 if with_remove && !issued.is_empty() => exec(&mut s, &Op::Remove(*rng.pick(&issued))),
+            69..=72 => {
+                let p: Vec<u8> = rng.pick(&prefixes).clone();
+                exec(&mut s, &Op::Keys(Some(&p)))
+            }
+            73..=74 => exec(&mut s, &Op::Keys(None)),
+            75..=84 if with_remove && !issued.is_empty() => {
+                let id = *rng.pick(&issued);
+                let key = key_given.get(&id).cloned().unwrap_or_default();
+                exec(&mut s, &Op::Remove(id)).map(|mut e| {
+                    // what the key index says about that key right after the call (cheap projection)
+                    e["k"] = bytes_json(&key);
+                    e["key_after"] = json!(guard(|| s.contains_key(&key)).ok().flatten().unwrap_or(false));
+                    e
+                })
+            }
             75..=84 => exec(&mut s, &Op::Get(if issued.is_empty() { 0 } else { *rng.pick(&issued) })),
             _ => exec(&mut s, &Op::Probe(&probe_ids(&issued))),
         };
@@ -1233,11 +1820,30 @@ fn keyed_run(tr: &mut Tracer, c: &mut Counters, a: &Args, name: &str, run: usize
             break;
         }
     }
+    // every other run ends with finalize(): the store turns read-only (refusals), every answer stays the same
+    let tail: Vec<Op> = if run % 2 == 0 { vec![Op::Maintain(1)] } else { vec![] };
+    for op in tail.iter() {
+        if alive {
+            alive = exec(&mut s, op).map_or(true, |e| emit(tr, c, e));
+        }
+    }
+    if alive {
+        for key in keys.iter() {
+            if alive {
+                alive = exec(&mut s, &Op::GetKey(key)).map_or(true, |e| emit(tr, c, e));
+            }
+        }
+    }
     if alive {
         for p in [&b"user/"[..], &b""[..]] {
             if alive {
                 alive = exec(&mut s, &Op::GetPrefix(p)).map_or(true, |e| emit(tr, c, e));
             }
+        }
+    }
+    for op in [Op::Keys(None), Op::Probe(&probe_ids(&issued)), Op::IterIds, Op::IterBlobs, Op::PutKey(b"late", b"after the end"), Op::GetKey(b"late")] {
+        if alive {
+            alive = exec(&mut s, &op).map_or(true, |e| emit(tr, c, e));
         }
     }
     if !alive {
@@ -1280,11 +1886,18 @@ fn bulk_records(profile: &str, n: usize, r: &mut Rng) -> Vec<Vec<u8>> {
 
 fn bulk_run(tr: &mut Tracer, c: &mut Counters, a: &Args, name: &str, profile: &str, n: usize) {
     let mut rng = Rng::new(a.seed).derive(&format!("{name}/{profile}/{n}"));
-    let recs = bulk_records(profile, n, &mut rng);
+    let var = variant_of(name);
+    let stringy = name.starts_with("triefrom:") && var != "kv";
+    let recs = if stringy {
+        // constructors taking string vectors: ascending, distinct, NUL-free text; at most 32 bytes for FixedLenStrVec<32>
+        strings(rng.next(), n).into_iter().map(|x| if var == "fixed" { x[..x.len().min(32)].to_string() } else { x }.into_bytes()).collect()
+    } else {
+        bulk_records(profile, n, &mut rng)
+    };
     let dj: Vec<Value> = recs.iter().map(|d| digest(d)).collect();
     tr.reset("blobstore", name, json!({"fam":fam_of(name),"variant":variant_of(name),"regime":"bulk","profile":profile,"n":n,"seed":a.seed,"keyed":false}));
     c.runs += 1;
-    let mut s = match guard(|| build(name, &recs)) {
+    let (mut s, built) = match guard(|| build(name, &recs)) {
         Ok(Ok(s)) => s,
         Ok(Err(msg)) => {
             emit(tr, c, json!({"op":"build","ds":dj,"ok":false,"len_after":0,"msg":msg.chars().take(120).collect::<String>()}));
@@ -1296,11 +1909,50 @@ fn bulk_run(tr: &mut Tracer, c: &mut Counters, a: &Args, name: &str, profile: &s
         }
     };
     let len_after = guard(|| s.len()).unwrap_or(usize::MAX >> 40);
-    let mut alive = emit(tr, c, json!({"op":"build","ds":dj,"ok":true,"len_after":len_after}));
-    let ids: Vec<u32> = (0..n as u32).collect();
+    let ids: Vec<u32> = built.ids.clone().unwrap_or_else(|| (0..n as u32).collect());
+    let build_ev = match (&built.ids, &built.keys) {
+        (Some(ids), _) => json!({"op":"build_at","ids":ids,"ds":dj,"ok":true,"len_after":len_after}),
+        (None, Some(ks)) => json!({"op":"build_keyed","ks":ks.iter().map(|k| bytes_json(k)).collect::<Vec<_>>(),"ds":dj,"ok":true,"len_after":len_after}),
+        (None, None) => json!({"op":"build","ds":dj,"ok":true,"len_after":len_after}),
+    };
+    let mut alive = emit(tr, c, build_ev);
     let pids = probe_ids(&ids);
     if alive {
         alive = exec(&mut s, &Op::Probe(&pids)).map_or(true, |e| emit(tr, c, e));
+    }
+    if alive {
+        alive = exec(&mut s, &Op::IterBlobs).map_or(true, |e| emit(tr, c, e));
+    }
+    if alive {
+        alive = exec(&mut s, &Op::MixedShape(&pids)).map_or(true, |e| emit(tr, c, e));
+    }
+    for i in 0..s.maint_count() {
+        if alive {
+            alive = exec(&mut s, &Op::Maintain(i)).map_or(true, |e| emit(tr, c, e));
+        }
+    }
+    if let Some(ks) = &built.keys {
+        // keyed reads of a keyed build: first / middle / last entry, a key given several times, a key never given
+        let mut some: Vec<Vec<u8>> = [0, n / 2, n.saturating_sub(1)].iter().filter_map(|&i| ks.get(i).cloned()).collect();
+        some.push(b"no such key".to_vec());
+        for k in some {
+            if alive {
+                alive = exec(&mut s, &Op::GetKey(&k)).map_or(true, |e| emit(tr, c, e));
+            }
+            if alive {
+                alive = exec(&mut s, &Op::ContainsKey(&k)).map_or(true, |e| emit(tr, c, e));
+            }
+        }
+        if alive && n <= 130 {
+            alive = exec(&mut s, &Op::Keys(None)).map_or(true, |e| emit(tr, c, e));
+        }
+        if alive {
+            let p: Vec<u8> = ks.get(n / 2).map(|k| k[..k.len().saturating_sub(1)].to_vec()).unwrap_or_default();
+            alive = exec(&mut s, &Op::Keys(Some(&p))).map_or(true, |e| emit(tr, c, e));
+            if alive && n <= 130 {
+                alive = exec(&mut s, &Op::GetPrefix(&p)).map_or(true, |e| emit(tr, c, e));
+            }
+        }
     }
     // a built store may be read-only: put / remove may be refused, never answered wrongly
     let extra = if name.starts_with("zerolen") { vec![] } else { b"one more record".to_vec() };
@@ -1324,10 +1976,10 @@ fn bulk_run(tr: &mut Tracer, c: &mut Counters, a: &Args, name: &str, profile: &s
         alive = exec(&mut s, &Op::GetBatch(&some)).map_or(true, |e| emit(tr, c, e));
     }
     if alive && n > 0 {
-        alive = exec(&mut s, &Op::Remove((n / 2) as u32)).map_or(true, |e| emit(tr, c, e));
+        alive = exec(&mut s, &Op::Remove(ids[n / 2])).map_or(true, |e| emit(tr, c, e));
     }
     if alive && n > 1 {
-        alive = exec(&mut s, &Op::RemoveBatch(&[(n / 2) as u32 + 1, 0, NEVER[1]])).map_or(true, |e| emit(tr, c, e));
+        alive = exec(&mut s, &Op::RemoveBatch(&[ids[(n / 2 + 1).min(n - 1)], ids[0], NEVER[1]])).map_or(true, |e| emit(tr, c, e));
     }
     let mut reloaded = false;
     if alive {
@@ -1446,7 +2098,15 @@ fn drive_bulk(tr: &mut Tracer, c: &mut Counters, a: &Args, name: &str, thorough:
         if name.starts_with("zerolen") && *p != "all_empty" {
             continue;
         }
+        // the string-vector constructors generate their own (string) records: one profile
+        let stringy = name.starts_with("triefrom:") && name != "triefrom:kv";
+        if stringy && *p != "ragged" {
+            continue;
+        }
         for &n in &sizes {
+            if (name.ends_with("vec_u8") || name.ends_with("slice_u8")) && n > 1 {
+                continue;
+            }
             // every size with the two irregular profiles; the regular ones and the 64 KiB
             // record (x compression level 9 adds up) with a few sizes
             let few: &[usize] = if *p == "big_first" {
@@ -1466,8 +2126,13 @@ fn drive_bulk(tr: &mut Tracer, c: &mut Counters, a: &Args, name: &str, thorough:
 
 fn drive_mutable(tr: &mut Tracer, c: &mut Counters, a: &Args, name: &str, thorough: bool) {
     let fams = allowed_families(name);
-    let light: Vec<&'static str> = fams.iter().copied().filter(|f| !f.ends_with("64k")).collect();
+    let light: Vec<&'static str> = fams.iter().copied().filter(|f| !f.ends_with("64k") && *f != "huge").collect();
     let heavy_io = name.contains("plain") || name.contains("l19"); // fsync per record / ~50 ms per put
+    if name.contains("l22") {
+        // zstd level 22: ~0.5 s per put; the clamp at the top of the level range only needs a handful of records
+        random_run(tr, c, a, name, "small", 0, 14, &["empty", "one", "eq32", "text"]);
+        return;
+    }
     let (r1, r2, r3) = match (thorough, heavy_io) {
         (false, false) => (4, 2, 2),
         (false, true) => (2, 1, 1),
@@ -1505,7 +2170,12 @@ fn replay(a: &Args) {
     let input = a.input.clone().expect("--in");
     let text = std::fs::read_to_string(&input).expect("read behaviours");
     let behaviours: Vec<Value> = text.lines().filter(|l| !l.trim().is_empty()).map(|l| serde_json::from_str(l).expect("behaviour json")).collect();
-    let subs: Vec<String> = mutable_subjects().into_iter().filter(|s| a.wants(s) && !s.starts_with("triekey")).collect();
+    // the histories run on every mutable subject except the keyed ones (own driver) and the constructor twins of
+    // DictZipBlobStore (0.1-0.3 s of dictionary training each; the store type is covered by the other dictzip subjects)
+    let skip = |s: &str| {
+        s.starts_with("triekey") || s.starts_with("dictzip:from_") || s == "dictzip:external_dict" || s == "dictzip:builder_setters" || s == "zstd:mem_l22"
+    };
+    let subs: Vec<String> = mutable_subjects().into_iter().filter(|s| a.wants(s) && !skip(s)).collect();
     let next = AtomicUsize::new(0);
     let results = std::sync::Mutex::new(Vec::<(String, Value, usize)>::new());
     let totals = std::sync::Mutex::new((0usize, 0usize, Vec::<String>::new()));
@@ -1775,7 +2445,7 @@ fn replay_subject(a: &Args, tr: &mut Tracer, name: &str, idx: usize, behaviours:
                 c.runs += 1;
                 for e in evs {
                     c.note(&e);
-                    tr.ev(e);
+                    tr.ev(project_ids(e));
                 }
             }
         }
